@@ -15,6 +15,9 @@ R08.5  data segment kinds: reading kind 0 yields the record of kind 2 with memor
 R08.7  immediates are decoded with the decoder of their specified type: for every instruction the sequence of decoder calls
        the translator makes equals the instruction's immediate list in the binary format (a u32 read as a single byte, or a
        signed field read unsigned, accepts only some of the valid encodings)
+R08.8  section readers follow the binary grammar: each section reader is partially evaluated on a scripted token stream of its
+       grammar (counts, names, limits with all three flag forms, value types, mutability, indices, constant expressions) and the
+       module record it builds is compared field by field with the decoded module; every token must be consumed
 R08.6  absent = empty: the module record comes from a zero-initialising allocation, and loops over module arrays are
        bounded by the count stored next to the array they index
 """
@@ -638,6 +641,134 @@ def check_immediate_decoders(chk):
     return n
 
 
+# ---- R08.8 ----------------------------------------------------------------------------------------
+
+def check_section_grammar(chk, tu):
+    B = lambda v: ('byte', v)
+    U = lambda v: ('u32', v)
+    I = lambda v: ('i32', v)
+    N = lambda s_: ('name', s_)
+    CE = ('constexpr', 0)
+    VT = {'i32': -1, 'i64': -2, 'f32': -3, 'f64': -4}
+    vt_enum = {k: tu.enums.get('wasmValueType' + k.upper()) for k in VT}
+    chk.require(all(v is not None for v in vt_enum.values()), 'enum WasmValueType not found')
+
+    def name_leaf(interp, args, node):
+        v = interp.path.state['stream'].take('name')
+        if v is None:
+            return 0
+        interp.store(args[1].c, args[1].k, v)
+        return 1
+
+    def constexpr_leaf(interp, args, node):
+        v = interp.path.state['stream'].take('constexpr')
+        return 0 if v is None else 1
+
+    def run(fn, toks, pre=None):
+        leafs = dict(emit.base_leafs())
+        leafs.update(emit.stream_leafs(lambda i: i.path.state['stream']))
+        leafs.update({'wasmReadName': name_leaf, 'wasmReadConstantExpr': constexpr_leaf})
+        it = pe.Interp([tu], leafs)
+        it.loop_abort = True
+
+        def setup():
+            mod = it.zero_init('struct WasmModule')
+            if pre:
+                pre(mod, it)
+            rd = {'v': {'buffer': {'data': unk('data'), 'length': unk('len')}, 'module': Ptr({'m': mod}, 'm'), 'debug': 0}}
+            err = {'v': unk('err')}
+            return (fn, [Ptr(rd, 'v'), 0, Ptr(err, 'v')], {'stream': emit.Stream(toks), 'mod': mod, 'err': err})
+        paths = [p for p in it.explore(setup) if not p.aborted]
+        return paths
+
+    def arr(p, n):
+        if isinstance(p, Ptr) and isinstance(p.c, list):
+            return p.c[p.k:p.k + n]
+        return None
+
+    def pick(rec, keys):
+        out = {}
+        for k in keys:
+            v = rec
+            for part in k.split('.'):
+                v = v.get(part) if isinstance(v, dict) else None
+            out[k] = v
+        return out
+
+    def pre_counts(types=0, functions=0):
+        def pre(mod, it):
+            mod['functionTypes'] = {'functionTypes': Ptr([it.zero_init('struct WasmFunctionType') for _ in range(types)], 0) if types else 0, 'count': types}
+            mod['functions'] = {'functions': Ptr([it.zero_init('struct WasmFunction') for _ in range(functions)], 0) if functions else 0, 'count': functions}
+        return pre
+    U32MAX = 0xFFFFFFFF
+    cases = [
+        ('wasmReadTypeSection', [U(2), B(0x60), U(2), I(VT['i32']), I(VT['f64']), U(1), I(VT['f32']), B(0x60), U(0), U(0)], None,
+         lambda m: [pick(t, ['parameterCount', 'resultCount']) for t in arr(m['functionTypes']['functionTypes'], m['functionTypes']['count']) or []] +
+                   [arr(t['parameterTypes'], t['parameterCount']) for t in arr(m['functionTypes']['functionTypes'], 1) or []] +
+                   [arr(t['resultTypes'], t['resultCount']) for t in arr(m['functionTypes']['functionTypes'], 1) or []],
+         [{'parameterCount': 2, 'resultCount': 1}, {'parameterCount': 0, 'resultCount': 0}, [vt_enum['i32'], vt_enum['f64']], [vt_enum['f32']]]),
+        ('wasmReadImportSection', [U(4), N('m0'), N('f'), B(0), U(3), N('m1'), N('t'), B(1), B(0x70), B(1), U(2), U(9),
+                                   N('m2'), N('mem'), B(2), B(3), U(1), U(4), N('m3'), N('g'), B(3), I(VT['i64']), B(1)], pre_counts(types=5),
+         lambda m: [pick(arr(m['functionImports']['imports'], 1)[0], ['module', 'name', 'functionTypeIndex']) if m['functionImports']['length'] == 1 else None,
+                    pick(arr(m['tableImports']['imports'], 1)[0], ['module', 'name', 'min', 'max', 'shared']) if m['tableImports']['length'] == 1 else None,
+                    pick(arr(m['memoryImports']['imports'], 1)[0], ['module', 'name', 'min', 'max', 'shared']) if m['memoryImports']['length'] == 1 else None,
+                    pick(arr(m['globalImports']['imports'], 1)[0], ['module', 'name', 'globalType.valueType', 'globalType.mutable']) if m['globalImports']['length'] == 1 else None],
+         [{'module': 'm0', 'name': 'f', 'functionTypeIndex': 3}, {'module': 'm1', 'name': 't', 'min': 2, 'max': 9, 'shared': 0},
+          {'module': 'm2', 'name': 'mem', 'min': 1, 'max': 4, 'shared': 1},
+          {'module': 'm3', 'name': 'g', 'globalType.valueType': vt_enum['i64'], 'globalType.mutable': 1}]),
+        ('wasmReadFunctionSection', [U(3), U(4), U(0), U(2)], pre_counts(types=5),
+         lambda m: [m['functions']['count']] + [f['functionTypeIndex'] for f in arr(m['functions']['functions'], m['functions']['count']) or []],
+         [3, 4, 0, 2]),
+        ('wasmReadTableSection', [U(2), B(0x70), B(0), U(5), B(0x70), B(1), U(1), U(7)], None,
+         lambda m: [m['tables']['count']] + [pick(t, ['min', 'max', 'shared']) for t in arr(m['tables']['tables'], m['tables']['count']) or []],
+         [2, {'min': 5, 'max': U32MAX, 'shared': 0}, {'min': 1, 'max': 7, 'shared': 0}]),
+        ('wasmReadMemorySection', [U(2), B(0), U(3), B(3), U(1), U(2)], None,
+         lambda m: [m['memories']['count']] + [pick(t, ['min', 'max', 'shared']) for t in arr(m['memories']['memories'], m['memories']['count']) or []],
+         [2, {'min': 3, 'max': 65535, 'shared': 0}, {'min': 1, 'max': 2, 'shared': 1}]),
+        ('wasmReadGlobalSection', [U(2), I(VT['f32']), B(0), CE, I(VT['i32']), B(1), CE], None,
+         lambda m: [m['globals']['count']] + [pick(g, ['type.valueType', 'type.mutable']) for g in arr(m['globals']['globals'], m['globals']['count']) or []],
+         [2, {'type.valueType': vt_enum['f32'], 'type.mutable': 0}, {'type.valueType': vt_enum['i32'], 'type.mutable': 1}]),
+        ('wasmReadExportSection', [U(3), N('a'), B(0), U(1), N('mem'), B(2), U(0), N('g'), B(3), U(0)], pre_counts(types=1, functions=2),
+         lambda m: [m['exports']['count']] + [pick(e, ['name', 'kind', 'index']) for e in arr(m['exports']['exports'], m['exports']['count']) or []] +
+                   [f.get('exportName') for f in arr(m['functions']['functions'], 2) or []],
+         [3, {'name': 'a', 'kind': 0, 'index': 1}, {'name': 'mem', 'kind': 2, 'index': 0}, {'name': 'g', 'kind': 3, 'index': 0}, 0, 'a']),
+        ('wasmReadStartSection', [U(1)], pre_counts(types=1, functions=2),
+         lambda m: [m['startFunctionIndex'], m['hasStartFunction']], [1, 1]),
+        ('wasmReadElementSection', [U(2), U(0), CE, U(3), U(2), U(0), U(1), U(0), CE, U(0)], pre_counts(types=1, functions=3),
+         lambda m: [m['elementSegments']['count']] + [pick(e, ['tableIndex', 'functionIndexCount']) for e in arr(m['elementSegments']['elementSegments'], m['elementSegments']['count']) or []] +
+                   [arr(e['functionIndices'], e['functionIndexCount']) for e in arr(m['elementSegments']['elementSegments'], 1) or []],
+         [2, {'tableIndex': 0, 'functionIndexCount': 3}, {'tableIndex': 0, 'functionIndexCount': 0}, [2, 0, 1]]),
+        ('wasmReadDataCountSection', [U(3)], None, lambda m: [m['dataSegments']['count']], [0]),
+    ]
+    n = 0
+    for fn, toks, pre, view, want in cases:
+        chk.require(fn in tu.functions, 'section reader %s not found' % fn)
+        chk.fn(fn)
+        site = fn + ':grammar'
+        n += 1
+        try:
+            paths = run(fn, toks, pre)
+        except emit.ScriptMismatch as e:
+            chk.fail('R08.8', fn + ':decoders', '%s: %s (token script of the section grammar: %r)' % (fn, e, toks), site)
+            continue
+        except pe.PEError as e:
+            raise AnalysisBroken('R08.8 %s: %s' % (fn, e))
+        ok_paths = [p for p in paths if p.state['err']['v'] == 0]
+        if not chk.expect(len(ok_paths) == 1, 'R08.8', fn + ':accepts',
+                          '%s does not accept a valid section (%d paths, %d successful): %r' % (fn, len(paths), len(ok_paths), toks), site):
+            continue
+        p = ok_paths[0]
+        chk.expect(p.state['stream'].pos == len(toks), 'R08.8', fn + ':consumes-all',
+                   '%s consumed %d of %d tokens of the section: %r' % (fn, p.state['stream'].pos, len(toks), p.state['stream'].log), site)
+        try:
+            got = view(p.state['mod'])
+        except Exception as e:         # the record no longer has the expected shape
+            got = 'unreadable (%s)' % e
+        chk.expect(got == want, 'R08.8', fn + ':decoded-module',
+                   '%s builds %r from the section %r; the binary grammar gives %r' % (fn, got, toks, want), site)
+    return n
+
+
 def run(chk):
     chk.explanation = (
         'Reader-side structural rules: (1) every call of a LEB128 decoder uses the returned byte count only as a truth value, so padding '
@@ -658,6 +789,7 @@ def run(chk):
     check_segment_kinds(chk, rtu)
     n6 = check_absent_is_empty(chk, rtu, funcs)
     n7 = check_immediate_decoders(chk)
+    n8 = check_section_grammar(chk, rtu)
     chk.extra['sites'] = dict(leb_call_sites=n1, decoder_paths=n2, custom_section_writes=n4, container_loops=n6, instructions_decoded=n7)
     chk.floor('R08.1', 60)
     chk.floor('R08.2', 60)
@@ -666,3 +798,4 @@ def run(chk):
     chk.floor('R08.5', 8)
     chk.floor('R08.6', 10)
     chk.floor('R08.7', 180)
+    chk.floor('R08.8', 28)
